@@ -100,6 +100,14 @@ func (sdc *signingDoneCheck) listen(
 	sdc.expectedSignersCount = len(attemptMembersIndexes)
 	sdc.doneSigners = make(map[group.MemberIndex]*signingDoneMessage)
 
+	// The instance is reused for subsequent attempts. Bind the processing
+	// goroutine to the context and the signers map of this very attempt so
+	// a goroutine of a previous attempt, still holding buffered messages,
+	// cannot outlive its context and record its outdated messages as
+	// confirmations of the next attempt.
+	receiveCtx := sdc.receiveCtx
+	doneSigners := sdc.doneSigners
+
 	go func() {
 		for {
 			select {
@@ -121,10 +129,10 @@ func (sdc *signingDoneCheck) listen(
 				}
 
 				sdc.doneSignersMutex.Lock()
-				sdc.doneSigners[doneMessage.senderID] = doneMessage
+				doneSigners[doneMessage.senderID] = doneMessage
 				sdc.doneSignersMutex.Unlock()
 
-			case <-sdc.receiveCtx.Done():
+			case <-receiveCtx.Done():
 				return
 			}
 		}
